@@ -341,6 +341,11 @@ def w_profiles(idx):
         elif i % 5 == 4:
             Node.store.clear()                         # the registry is not the tree
             how = "registry emptied after building"
+        elif i % 5 == 2:
+            for x in walk(root):
+                x.prefix = "eml"                       # qualified elements, as after importing <eml:dataset>...: rules go by element NAME
+            root.add_namespace("eml", "https://eml.ecoinformatics.org/eml-2.2.0")
+            how = "every node carries the prefix eml"
         evs.append(record_eval(root, "warnings", {"profile": p, "hostile_words": bool(G.get("hostile")), "tree": how}))
         if i % 2 == 0:
             Node.store.clear()
